@@ -144,6 +144,65 @@ def messy(rng, i, quick):
     return g.script(), {"obs": obs_i, "commit": commit_i, "deliveries": deliveries, "apply": apply_i, "props": props, "committer": c, "members": members}
 
 
+def dup_add(rng, i):
+    """Directed: the same key package proposed by two different members (one of the two by-reference
+    adds is dropped when it reaches the tree) followed by two or three further adds: the order of
+    the surviving adds in the commit must be the order in which the committer applied them."""
+    n = rng.choice([3, 4, 5])
+    g = HistGen(rng, n_pool=n + 5, name=f"c10-dup-{i}")
+    g.start()
+    g.round(n_props=0, by_value_adds=n - 1, by_value_removes=0, app=False, encrypt=False)
+    ops = g.ops
+    members = list(g.in_group)
+    outs = g.outsiders()
+    ops.append({"op": "observe", "who": members[0], "observe": "all"})
+    obs_i = len(ops) - 1
+    c = rng.choice(members)
+    for m in members:
+        ops.append({"op": "opts", "who": m, "encrypt_controls": False, "path_required": rng.chance(1, 2), "tree_ext": True, "single_welcome": rng.chance(1, 2)})
+    props, tag = [], 0
+    d = outs[0]
+    ops.append({"op": "kp", "who": d, "id": "kp_" + d})
+    proposers = rng.shuffle(members)[:2]
+    for p_ in proposers:
+        tag += 1
+        ops.append({"op": "propose", "who": p_, "kind": "add", "kp": "kp_" + d, "id": f"q{tag}"})
+        for m in members:
+            if m != p_:
+                ops.append({"op": "deliver", "to": m, "msg": f"q{tag}"})
+        props.append({"k": "add", "name": d, "tag": tag, "by_ref": True, "proposer": p_})
+    extra_ref = rng.chance(1, 2)
+    later = outs[1:3 + rng.below(2)]
+    cop = {"op": "commit", "who": c, "id": "cm", "add": [], "remove_names": [], "psk": []}
+    for k, name in enumerate(later):
+        ops.append({"op": "kp", "who": name, "id": "kp_" + name})
+        tag += 1
+        if extra_ref and k == 0:
+            p_ = rng.choice(members)
+            ops.append({"op": "propose", "who": p_, "kind": "add", "kp": "kp_" + name, "id": f"q{tag}"})
+            for m in members:
+                if m != p_:
+                    ops.append({"op": "deliver", "to": m, "msg": f"q{tag}"})
+            props.append({"k": "add", "name": name, "tag": tag, "by_ref": True, "proposer": p_})
+        else:
+            cop["add"].append("kp_" + name)
+            props.append({"k": "add", "name": name, "tag": tag, "by_ref": False, "proposer": c})
+    ops.append(cop)
+    commit_i = len(ops) - 1
+    deliveries = []
+    for m in members:
+        if m != c:
+            ops.append({"op": "deliver", "to": m, "msg": "cm"})
+            deliveries.append(len(ops) - 1)
+    ops.append({"op": "apply", "who": c})
+    apply_i = len(ops) - 1
+    for name in [d] + later:
+        ops.append({"op": "join", "who": name, "welcome_any": "cm"})
+    ops.append({"op": "observe", "who": c, "observe": "all"})
+    return g.script(), {"obs": obs_i, "commit": commit_i, "deliveries": deliveries, "apply": apply_i, "props": props, "committer": c, "members": members,
+                        "joins": list(range(apply_i + 1, apply_i + 2 + len(later))), "final": len(ops) - 1}
+
+
 X, Y = 0xF011, 0xF012
 
 
@@ -245,7 +304,7 @@ def main(run, args):
         run.violation("harness build failed", herr, failing_input_found=False)
         return
     quick = run.tier == "quick"
-    items = [messy(rng, i, quick) for i in range(60 if quick else 600)] + [ext_messy(rng, i) for i in range(24 if quick else 200)]
+    items = [messy(rng, i, quick) for i in range(60 if quick else 600)] + [ext_messy(rng, i) for i in range(24 if quick else 200)] + [dup_add(rng, i) for i in range(16 if quick else 120)]
     recs = run_scripts([x[0] for x in items], timeout=3000)
     failing, mism = [], []
     cases = []
@@ -340,6 +399,18 @@ def main(run, args):
                                             committer_unused=sorted(cunused.elements()), receiver_unused=info.get("unused")))
             if not ar.get("ok"):
                 failing.append(dict(ctx, what="the committer cannot apply its own commit", error=ar.get("err")))
+            # the members added by the commit can use its Welcome and end in the members' state
+            for ji in meta.get("joins", []):
+                r = byi.get(ji, {})
+                if not r.get("ok"):
+                    failing.append(dict(ctx, what="a member added by the commit cannot join with its Welcome (order of the adds?)", joiner=sc["ops"][ji]["who"], error=r.get("err")))
+            if "final" in meta:
+                fo = (byi.get(meta["final"], {}).get("obs") or {})
+                cur = [(n_, o) for n_, o in fo.items() if o and o.get("group")]
+                top = max((o["epoch"] for _, o in cur), default=None)
+                states = {(o["ctx"], o["tree_bytes"], o["auth"]) for _, o in cur if o["epoch"] == top}
+                if len(states) > 1:
+                    failing.append(dict(ctx, what="members and joiners of the new epoch disagree"))
         if out is None:
             continue
         n_cmp += 1
